@@ -2671,8 +2671,6 @@ class Parameters:
         return _ParametersRestorer(parameters=self_, restore=restore, refs=refs)
 
     def _update(self_, arg=Undefined, /, **kwargs):
-        BATCH_WATCH = self_._BATCH_WATCH
-        self_._BATCH_WATCH = True
         self_or_cls = self_.self_or_cls
         if arg is not Undefined:
             kwargs = dict(arg, **kwargs)
@@ -2682,11 +2680,15 @@ class Parameters:
             if k in self_ and hasattr(self_[k], '_autotrigger_value')
         ]
 
-        for tp in trigger_params:
-            self_[tp]._mode = 'set'
-
         values = self_.values()
         restore = {k: values[k] for k, v in kwargs.items() if k in values}
+
+        # Nothing above may leave the object deferring if it raises (an
+        # argument that is no mapping, a value that cannot be read)
+        BATCH_WATCH = self_._BATCH_WATCH
+        self_._BATCH_WATCH = True
+        for tp in trigger_params:
+            self_[tp]._mode = 'set'
 
         # param.trigger re-assigns the current values: that is not an
         # assignment by the user, a parameter that follows a reference
